@@ -12,3 +12,10 @@ package bug
 //@ func operationUnmarshaler
 //@   props C07
 //@   nopanic
+
+// Read-only accessors of the compiled snapshot.
+//@ func (*Snapshot).SearchCommentByOpId
+//@ func (*Snapshot).SearchComment
+//@ func Comment.CombinedId
+//@   trusted
+//@   modifies nothing
